@@ -1030,8 +1030,10 @@ def bodyRunActs (go : Call → St → St × Ret) (id : Nat) (acts : List ClientA
     -- probe to a failed server, which is a later query with its own id)
     let qid := (genQid 70000 s).1
     let (s, st) := go (.sendNolock none false false spec (.client id) []) s
-    -- ares_query_nolock stores the query id through its out parameter on success
-    let s := if st == .ok then s.modClient id fun c =>
+    -- ares_query_nolock stores the query id through its out parameter only when the query went on the wire: an answer
+    -- from the query cache completes inside the call and leaves the out parameter alone (the callback it ran may
+    -- already have started the next candidate's queries and recorded their ids)
+    let s := if st == .ok && s.byQid.any (·.1 == qid) then s.modClient id fun c =>
         if slot == 0 then { c with qidA := qid } else { c with qidAAAA := qid } else s
     let (s, st') := go (.runActs id rest) s
     (s, if rest.isEmpty then st else st')
